@@ -230,3 +230,32 @@ UNITS.append(Unit(id='C07/inspect.NA', target=qual(_funcs['NA']), inputs=[],
                   cases=[Case('NA() yields #N/A', lambda: True, lambda out: spec.is_error(out, 'NaExcelError'))],
                   call=(lambda f: lambda it, fn: it.call(f, [], {}))(_funcs['NA']),
                   native_call=(lambda f: lambda fn: f())(_funcs['NA'])))
+
+
+# ---- F: a formula that reads the same error cell twice gets the error twice (the memo of a formula's context keeps error values too) ----------
+def _double_read(native):
+    def call(it, fn, err):
+        from xlcalculator import evaluator, model as Mo, xltypes
+        m = Mo.Model()
+        c = xltypes.XLCell('Sheet1!B1', None)
+        c.value = err                                           # a cell holding (or having computed) an error value
+        m.cells, m.defined_names, m.ranges = {'Sheet1!B1': c}, {}, {}
+        ev = evaluator.Evaluator(m, {})
+        if native:
+            ctx = evaluator.EvaluatorContext(ev, 'Sheet1!A1')
+            r = [ctx.eval_cell('Sheet1!B1'), ctx.eval_cell('Sheet1!B1'), ctx.eval_cell('Sheet1!B1')]
+        else:
+            ctx = it.instantiate(evaluator.EvaluatorContext, [ev, 'Sheet1!A1'], {})
+            r = [it.call(evaluator.EvaluatorContext.eval_cell, [ctx, 'Sheet1!B1'], {}) for _ in range(3)]
+        return r
+    if native:
+        return lambda fn, err: call(None, fn, err)
+    return call
+
+
+UNITS.append(Unit(
+    id='C07/evaluator.EvaluatorContext.eval_cell/error_cell_read_again', target='xlcalculator.evaluator:EvaluatorContext.eval_cell',
+    inputs=[('err', Fork([XlErr(c) for c in ERROR_CLASSES]))],
+    cases=[Case('a formula that mentions an error cell several times is handed that error every time (no Python exception, no cycle report)', lambda err: True,
+                lambda err, out: out.kind == 'ret' and len(out.value) == 3 and all(v is err for v in out.value))],
+    call=_double_read(False), native_call=_double_read(True)))
